@@ -39,6 +39,9 @@ THEOREMS = [
     "Opacus.C13.packed_layer_refines_spec",
     "Opacus.C13.padded_layer_refines_spec",
     "Opacus.C13.packed_refines_spec",
+    "Opacus.C13.packed_refines_spec_partial",
+    "Opacus.C13.packed_state_dtype_counterexample",
+    "Opacus.C13.packed_sequences_refine_spec",
     "Opacus.C13.padded_refines_spec",
     "Opacus.C13.seq_lengths_roundtrip",
     "Opacus.C13.seq_lengths_reversed",
@@ -187,6 +190,8 @@ def gen_case(rng, mode=None, kind=None, grid=None):
     c["init"] = rng.randint(0, 1)
     if grid:
         c.update(grid)
+    # a float64 layer run under the default dtype float32 (the dtype of the packed path's h_last buffer)
+    c["dd32"] = 1 if (c["mode"] == "float" and c["inp"] != "pad" and rng.random() < 0.2) else 0
     c["B"], c["T"] = rng.randint(1, 4), rng.randint(1, 5)
     if rng.random() < 0.7:
         c["B"], c["T"] = max(c["B"], 2), max(c["T"], 2)
@@ -246,7 +251,7 @@ def lst(vals, e):
 def head(c):
     e = enc(c["mode"])
     w = [v for blk in c["W"] for v in blk]
-    return f"{c['mode']} {c['kind']} {c['I']} {c['H']} {c['L']} {c['bidir']} {c['bias']} {lst(w, e)}"
+    return f"{c['mode']} {c.get('cast', 'id')} {c['kind']} {c['I']} {c['H']} {c['L']} {c['bidir']} {c['bias']} {lst(w, e)}"
 
 
 def init_part(c, h0=None, c0=None):
@@ -286,7 +291,7 @@ def spec_lines(c, x, st):
             ip = init_part(c, hj, cj)
         else:
             ip = "0"
-        lines.append(f"spec {head(c)} {lst(fl(seq), e)} {ip}")
+        lines.append(f"spec {head(dict(c, cast='id'))} {lst(fl(seq), e)} {ip}")
     return lines
 
 
@@ -349,6 +354,8 @@ def oracle(c, want_grads=True):
             continue
         if tuple(a.shape) != tuple(b.shape):
             return (f"{tag}:{what}", f"{what} shape torch {tuple(a.shape)} dp {tuple(b.shape)}", {})
+        if a.dtype != b.dtype:
+            return (f"{tag}:{what}-dtype", f"{what} dtype torch {a.dtype} dp {b.dtype}", {})
         if not same(fl(a), fl(b), False):
             k = max(range(a.numel()), key=lambda i: abs(fl(a)[i] - fl(b)[i]))
             return (f"{tag}:{what}", f"{what} differs from torch.nn (max |Δ| = {abs(fl(a)[k]-fl(b)[k]):.3g} at flat index {k}: torch {fl(a)[k]!r} dp {fl(b)[k]!r})", {"torch": fl(a), "dp": fl(b)})
@@ -417,10 +424,18 @@ def run_cases(ctx, cases):
     lines, index, real = [], [], []
     for ci, c in enumerate(cases):
         x, xin, st = make_input(c)
+        f32 = bool(c.get("dd32")) and ctx.variant.get("packed-state-dtype") == "asCoded"
+        c["cast"] = "f32" if f32 else "id"
         try:
-            t, d = build(c)
-            with int_activations(c["mode"] == "int"), torch.no_grad():
-                od, hd, cd, _ = run_layer(d, c, xin, st)
+            with rig.default_dtype(torch.float32 if c.get("dd32") else torch.float64):
+                t, d = build(c)
+                with int_activations(c["mode"] == "int"), torch.no_grad():
+                    od, hd, cd, _ = run_layer(d, c, xin, st)
+            want = torch.float32 if f32 else torch.float64
+            if hd.dtype != want or od.dtype != torch.float64:
+                raise TypeError(f"dtype of h_n {hd.dtype} (model variant says {want}), of the output {od.dtype}")
+            hd = hd.double()
+            cd = None if cd is None else cd.double()
         except Exception as e:  # the implementation raising is an observation, not a harness error
             ctx.count("impl-raised")
             ctx.case(case_key(c), nontrivial=True, kind=f"{c['kind']}/{c['mode']}/{c['inp']}")
@@ -462,7 +477,9 @@ def run_cases(ctx, cases):
             continue
         m = parse_reply(per[ci]["fwd"], c["mode"])
         impl = [fl(od), fl(hd)] + ([fl(cd)] if lstm else [])
-        ok = m is not None and len(m) == len(impl) and all(same(a, b, exact) for a, b in zip(impl, m))
+        loose = c.get("cast") == "f32"   # float32 rounding of values that differ in the 16th digit may differ by one float32 ulp
+        ok = m is not None and len(m) == len(impl) and same(impl[0], m[0], exact) and all(
+            (all(core.close(u, v, 1e-6, 1e-9) for u, v in zip(a, b)) and len(a) == len(b)) if loose else same(a, b, exact) for a, b in zip(impl[1:], m[1:]))
         # model vs spec and torch.nn vs spec, per sequence
         specs = [parse_reply(r, c["mode"]) for r in per[ci]["spec"]]
         spec_ok, nn_ok = True, True
@@ -476,7 +493,8 @@ def run_cases(ctx, cases):
             mc = torch.tensor(m[2], dtype=torch.float64).reshape(LP, B, H) if lstm else None
             for j, s in enumerate(specs):
                 so = mo[j, : lens[j]] if c["bf"] else mo[: lens[j], j]
-                if not (same(fl(so), s[0], exact) and same(fl(mh[:, j]), s[1], exact) and (not lstm or same(fl(mc[:, j]), s[2], exact))):
+                cmp_state = (lambda a, b: len(a) == len(b) and all(core.close(u, v, 1e-6, 1e-9) for u, v in zip(a, b))) if loose else (lambda a, b: same(a, b, exact))
+                if not (same(fl(so), s[0], exact) and cmp_state(fl(mh[:, j]), s[1]) and (not lstm or cmp_state(fl(mc[:, j]), s[2]))):
                     spec_ok = False
                 if nn_res is not None:
                     po, ht, ct = nn_res
@@ -493,6 +511,8 @@ def run_cases(ctx, cases):
         ctx.count("branch:ragged" if ragged else "branch:rectangular")
         ctx.count(f"branch:bidir={c['bidir']},L={c['L']}")
         ctx.count(f"branch:init={c['init']},bias={c['bias']},bf={c['bf']}")
+        if c.get("dd32"):
+            ctx.count("branch:default-dtype-float32/cast=" + c["cast"])
         if ragged and c["bidir"] and c["init"]:
             ctx.count("branch:delta>0-with-nonzero-h0")
         if nn_res is not None:
@@ -589,14 +609,24 @@ def csl_corr(ctx):
             ctx.validated()
         else:
             mm(ctx, "compute_seq_lengths", {"batch_sizes": bs}, impl, r, oracle=csl_oracle)
+    pack_lines, pack_impl = [], []
     for lens, r in zip(lens_cases, rep[len(cases):]):
-        p = pack_padded_sequence(torch.zeros(max(lens), len(lens), 1), lens)
+        x = torch.arange(1, max(lens) * len(lens) + 1, dtype=torch.float64).reshape(max(lens), len(lens), 1)
+        p = pack_padded_sequence(x, lens)
         impl = "ok " + lst(p.batch_sizes.tolist(), str)
         ctx.case(("bsz", tuple(lens)), nontrivial=len(set(lens)) > 1, kind="batch_sizes")
         if impl == r:
             ctx.validated()
         else:
             mm(ctx, "batch_sizes", {"lens": lens}, impl, r, oracle=None)
+        pack_lines.append(f"pack {len(lens)} " + " ".join(lst([int(v) for v in x[:l, j, 0].tolist()], str) for j, l in enumerate(lens)))
+        pack_impl.append("ok " + lst([int(v) for v in p.data.reshape(-1).tolist()], str))
+    for lens, ln, impl, r in zip(lens_cases, pack_lines, pack_impl, ctx.lean_driver("C13", pack_lines)):
+        ctx.case(("pack", tuple(lens)), nontrivial=len(set(lens)) > 1, kind="pack_padded_sequence")
+        if impl == r:
+            ctx.validated()
+        else:
+            mm(ctx, "packSteps", {"lens": lens}, impl, r, oracle=None)
 
 
 def csl_oracle(case):
@@ -712,6 +742,10 @@ def grid_cases(rng, kinds):
 
 def run(ctx):
     torch.set_num_threads(2)
+    # which behaviour does this tree implement for the packed path's h_last buffer? (Lean witness:
+    # packed_state_dtype_counterexample; replayed on the real code by dtype_oracle)
+    ctx.variant["packed-state-dtype"] = "asCoded" if dtype_oracle("lstm") else "repaired"
+    ctx.log("packed-state-dtype variant implemented by this tree:", ctx.variant["packed-state-dtype"])
     with rig.default_dtype(torch.float64):
         # corpus first
         import json
@@ -725,10 +759,10 @@ def run(ctx):
         names_corr(ctx)
         csl_corr(ctx)
         err_corr(ctx)
-        cases = [gen_case(ctx.rng) for _ in range(ctx.n(300, 3000))]
+        cases = [gen_case(ctx.rng) for _ in range(ctx.n(300, 6000))]
         run_cases(ctx, cases)
         # failing-input search on the real code (no model involved)
-        search = [gen_case(ctx.rng, mode="float") for _ in range(ctx.n(250, 2500))]
+        search = [gen_case(ctx.rng, mode="float") for _ in range(ctx.n(250, 6000))]
         for c in search:
             if c["kind"] == "lstm" and ctx.rng.random() < 0.5:
                 c["via_fix"] = 1   # DP layer obtained through ModuleValidator's fixer (validators/lstm.py)
@@ -747,9 +781,6 @@ def run(ctx):
         if res:
             ctx.property_failure(res[0], res[1], res[2])
             break
-    else:
-        ctx.variant["packed-state-dtype"] = "repaired"
-    ctx.variant.setdefault("packed-state-dtype", "asCoded")
 
 
 def replay(ctx, rp):
